@@ -357,15 +357,40 @@ def o_c17(cimp, ctx):
             probs.append((f"persisted task {i} was executed although all its dependencies and products exist", ()))
         if rep.get(i) == O["PERSISTENCE"] and i in starts:
             probs.append((f"task {i} reported PERSISTENCE but ran", ()))
+        # --force does not override persist: when something the task can see BEFORE the build differs from its
+        # rows (a source file it reads, its own product, its module) and all its nodes exist, it is persisted
+        if i in starts and cfg["force"] and all(n in before for n in nb) and not t["skip"] and not cfg["dry_run"]:
+            import engine_impl as EI
+            rows = {}
+            if ctx["prev"]:
+                for (a, k, h) in ctx["prev"][-1][1]["db"]:
+                    if a == i:
+                        rows[k] = h
+            produced_elsewhere = {p for u in tasks if u["id"] != i for p in u["prods"]}
+            static = [n for n in nb if n not in produced_elsewhere and n < 200]
+            changed = [n for n in static if rows.get(n) != EI.sha(str(before[n]).strip())]
+            msha = ctx["raw"]["mods"][str(t["module"])][1]
+            if rows.get(i) is not None and rows.get(i) != msha:
+                changed.append(i)
+            if changed and rows:
+                probs.append((f"persisted task {i} was executed under --force although all its nodes exist and nodes {changed} differ from its rows", ()))
     if ctx["prev"]:
         pop, pc, _ = ctx["prev"][-1]
         ops = ctx["case"]["ops"]
         bidx = [i for i, o in enumerate(ops) if o["op"] == "build"]
         me = bidx[ctx["bi"]]
         # (a dry run only announces PERSISTENCE and records nothing, so it is not "the previous build" here)
-        if ops[me - 1]["op"] == "build" and pop["tasks"] == tasks and not cfg["force"] and not starts and not pop["cfg"]["dry_run"]:
+        if ops[me - 1]["op"] == "build" and pop["tasks"] == tasks and not cfg["force"] and not pop["cfg"]["dry_run"]:
+            byid = {x["id"]: x for x in tasks}
             for t, o in pc["reports"]:
-                if o == O["PERSISTENCE"] and rep.get(t) not in (O["SKIP_UNCHANGED"], O["SKIP"], None):
+                if o != O["PERSISTENCE"] or t not in byid:
+                    continue
+                # nothing the task can see has been touched since: no task of this build that writes one of its
+                # nodes has run (other tasks may well run - e.g. a sibling that failed in the previous build)
+                nbt = set(neighbours_of(byid[t], tasks))
+                if any(u["id"] in starts and (set(u["prods"]) & nbt) for u in tasks):
+                    continue
+                if rep.get(t) not in (O["SKIP_UNCHANGED"], O["SKIP"], O["SKIP_PREVIOUS_FAILED"], None):
                     probs.append((f"task {t} was persisted in the previous build but is now reported {OUTCOMES[rep[t]]}", ()))
     return probs
 
